@@ -95,6 +95,27 @@ def translate(repo):
     p2 = [(n, l + l2) for n, l in points(b2)]
     if not p2 or not any(n == "resetExitCode" for n, _ in p2):
         raise TranslateError("checkInternal: no mLogger->resetExitCode() found")
+    # CppCheck::check(const FileSettings&): how the per-file settings object comes into being and
+    # which of its fields are written (project path; Iso/Fs.v apply_onto)
+    b3, l3 = function_body(src, r"unsigned int CppCheck::check\s*\(\s*const FileSettings\s*&\s*\w+\s*\)\s*\{")
+    p3 = []
+    for m in re.finditer(r"[^;{}]*\btempSettings\b[^;{}]*[;{]", b3):
+        st = " ".join(m.group(0).split())
+        line = b3.count("\n", 0, m.start() + len(m.group(0)) - len(m.group(0).lstrip())) + l3
+        d = re.match(r"(?:const\s+)?Settings\s+tempSettings\s*=\s*mSettings\s*;", st)
+        w = re.match(r"(?:else\s+)?(?:if\s*\(.*\)\s*)?tempSettings\.(\w+)(?:\.\w+)*\s*(?:\+=|=(?!=)|\.insert\s*\(|\.set\w*\s*\()", st)
+        if d:
+            p3.append(("copy_local", line))
+        elif re.search(r"\bSettings\b[^=;]*\btempSettings\b", st):
+            p3.append(("not_a_fresh_copy", line))          # reference, pointer, static, other initialiser
+        elif w:
+            p3.append(("w_" + w.group(1), line))
+        elif re.match(r"(?:else\s+)?if\s*\(\s*!?\s*tempSettings\.\w+[^)]*\)\s*(?:;|\{)?$", st) or re.match(r"CppCheck\s+temp\s*\(\s*tempSettings", st):
+            continue                                       # a read: condition / handing it to the temporary CppCheck
+        else:
+            p3.append(("other", line))
+    if not p3:
+        raise TranslateError("check(const FileSettings&): no statement about tempSettings found")
     # the logger's own reset methods must still do what the model says
     for meth, needle in (("resetExitCode", r"mExitCode\s*=\s*0"), ("clear", r"mErrorList\.clear\s*\(\s*\)"),
                          ("setLocationMacros", r"mLocationMacros\.clear\s*\(\s*\)"),
@@ -108,15 +129,22 @@ def translate(repo):
     calls = re.findall(r"mCppcheck\.(\w+)\s*\(", body)
     if calls != ["check", "check", "analyseWholeProgram"]:
         raise TranslateError("SingleExecutor::check: calls on mCppcheck are %r" % calls)
-    return p1, p2, path
+    return p1, p2, p3, path
 
 
 KNOWN = ["resetExitCode", "closePlist", "openPlist", "setRemarkComments", "inlineSuppressions", "setLocationMacros", "clear", "ret",
          "nomsg_isSuppressed", "nomsg_dump", "nomsg_markUnmatchedInlineSuppressionsAsChecked"]
 
 
+FS_KNOWN = ["copy_local", "not_a_fresh_copy", "other", "w_userDefines", "w_includePaths", "w_userUndefs", "w_standards", "w_platform"]
+
+
 def main(repo, verif):
-    p1, p2, path = translate(repo)
+    p1, p2, p3, path = translate(repo)
+    fnames = list(FS_KNOWN)
+    for n, _ in p3:
+        if n not in fnames:
+            fnames.append(n)
     names = list(KNOWN)
     for n, _ in p1 + p2:
         if n not in names:
@@ -127,18 +155,22 @@ def main(repo, verif):
            "Require Import List. Import ListNotations.\n\n"
            "Inductive point :=\n  %s.\n\n"
            "(* CppCheck::check(const FileWithDetails&) *)\nDefinition check_points : list point :=\n  [%s].\n\n"
-           "(* CppCheck::checkInternal *)\nDefinition checkInternal_points : list point :=\n  [%s].\n"
-           % (path, "\n  ".join("| P_" + n for n in names), fmt(p1), fmt(p2)))
+           "(* CppCheck::checkInternal *)\nDefinition checkInternal_points : list point :=\n  [%s].\n\n"
+           "(* CppCheck::check(const FileSettings&): statements about the per-file settings object *)\n"
+           "Inductive fspoint :=\n  %s.\n\nDefinition fs_points : list fspoint :=\n  [%s].\n"
+           % (path, "\n  ".join("| P_" + n for n in names), fmt(p1), fmt(p2),
+              "\n  ".join("| F_" + n for n in fnames), ";\n   ".join("F_%s (* line %d *)" % (n, l) for n, l in p3)))
     # line numbers are comments only, but keep the file stable when nothing moved
     old = open(out).read() if os.path.exists(out) else None
     if old != txt:
         os.makedirs(os.path.dirname(out), exist_ok=True)
         open(out, "w").write(txt)
-    return [n for n, _ in p1], [n for n, _ in p2]
+    return [n for n, _ in p1], [n for n, _ in p2], [n for n, _ in p3]
 
 
 if __name__ == "__main__":
     here = os.path.dirname(os.path.dirname(os.path.dirname(os.path.abspath(__file__))))
-    a, b = main(os.environ.get("VERIF_REPO", "/repo"), here)
+    a, b, c = main(os.environ.get("VERIF_REPO", "/repo"), here)
     print(a)
     print(b)
+    print(c)
